@@ -5,10 +5,10 @@ SPEC = {'level': 'exploration',
                  'the tips the node announces synchronously through the kernel blockTip notification (uiInterface.NotifyBlockTip) are taken as the independent '
                  'record of actual tip changes at step boundaries; intermediate tips inside one activation step are only checked through replay consistency and the final tip',
                  'callbacks are delivered by the production path (CScheduler thread + SerialTaskRunner) in 5/6 of the cases; only harness-owned, seeded schedules are explored'],
- 'stages': [gen('vh_c63', 'c63_signals', 480, 9000, min_cases_quick=160, replays_needed=2, replays_total=5,
+ 'stages': [gen('vh_c63', 'c63_signals', 240, 9000, min_cases_quick=80, replays_needed=2, replays_total=5,
                 floors={'scheduler-thread': 0.6, 'reorg': 0.2, 'reorg-depth>=2': 0.1, 'tx-removed': 0.2, 'tx-removed-for-block': 0.2, 'bad-branch-detour': 0.05},
                 rule='histories with reorgs and pool churn; non-trivial = scheduler-thread delivery, replayed reorg of depth>=2, >=1 addition and >=1 removal reported'),
-            gen('vh_c63', 'c63_signals_tsan', 32, 1600, cfg='tsan', workers_quick=4, workers_thorough=8, min_cases_quick=8, replays_needed=2, replays_total=5,
+            gen('vh_c63', 'c63_signals_tsan', 16, 1600, cfg='tsan', workers_quick=4, workers_thorough=8, min_cases_quick=4, replays_needed=2, replays_total=5,
                 rule='same target in the ThreadSanitizer build (any TSan / lock-order report is a failure)')]}
 
 # VERIF_NO_TSAN=1 drops the ThreadSanitizer stages (used for sensitivity runs of mutants that only the differential/log oracle can see:
